@@ -4,7 +4,9 @@ open RV.C13
 #print axioms read_deterministic
 #print axioms frame_compose
 #print axioms read_after_reads_same
+#print axioms namespaces_may_grow
 #print axioms same_store_view_is_noop
 #print axioms wf_reachable
 #print axioms jsonld_buggy_breaks_frame
 #print axioms foreign_graph_copy_is_write
+#print axioms skolemize_into_same_store_is_write
